@@ -12,7 +12,7 @@ T=$(mktemp -d); cp -r $D/demo/. $T/
 find $T -name '*.go.txt' | while read f; do mv "$f" "${f%.txt}"; done
 [ -f $T/go.mod.txt ] && sed "s#=> /repo#=> $WT#" $T/go.mod.txt > $T/go.mod && rm $T/go.mod.txt
 find $T -name 'go.mod.txt' | while read f; do sed "s#=> /repo#=> $WT#" "$f" > "${f%.txt}"; rm "$f"; done
-grep -rl "/tmp/wt/$ID\|/tmp/wt6/$ID\|/tmp/wt4/$ID\|/repo" $T 2>/dev/null | while read f; do sed -i "s#/tmp/wt6/$ID#$WT#g; s#/tmp/wt4/$ID#$WT#g; s#/tmp/wt/$ID#$WT#g; s#=> /repo#=> $WT#g" "$f"; done
+grep -rlE "/tmp/wt[0-9]*/$ID|/repo" $T 2>/dev/null | while read f; do sed -i -E "s#/tmp/wt[0-9]*/$ID#$WT#g; s#=> /repo#=> $WT#g" "$f"; done
 find $T -name '*.sh' | while read f; do sed -i "s#REPO:-/repo#REPO:-$WT#g; s#/repo/#$WT/#g" "$f"; done
 cp /repo/go.sum $T/ 2>/dev/null
 CMD="go test -count=1 -timeout 300s ./..."
